@@ -516,7 +516,7 @@ func (w *World) identFlags(e ipfslog.Entry) string {
 	isig := 0
 	if q := w.peerOfIdentID(id.ID); q >= 0 && id.Signatures != nil {
 		g := w.peers[q].identity.Signatures
-		if g != nil && bytes.Equal(g.ID, id.Signatures.ID) && bytes.Equal(g.PublicKey, id.Signatures.PublicKey) {
+		if g != nil && bytes.Equal(g.ID, id.Signatures.ID) && bytes.Equal(g.PublicKey, id.Signatures.PublicKey) && id.Type == w.peers[q].identity.Type {
 			isig = 1
 		}
 	}
